@@ -42,7 +42,10 @@
  *          visited set (states = distinct images, transitions = op+encode steps).
  *   ms   : the same chain walk for OpusMSEncoder with 2-4 streams (explicit mappings and surround family 1).
  *   mshist: the hist exploration on OpusMSEncoder.
- *   cvbr : 10 s runs, long-term average.
+ *   cvbr : 10 s runs, long-term average, on constant configurations and after deviation-bounded histories (prefix mode class x rate-control
+ *          history x measured mode class, see the comment above cvbr_hist_item).
+ *   grid additionally holds the activity items (DTX {off,on} x FEC / complexity deviation x loud/silence schedules, see activity_item);
+ *   hist repeats its bases with DTX on.
  */
 #include <stdlib.h>
 #include <string.h>
